@@ -191,7 +191,7 @@ def handle : List String → String
   | ["plan.vert", rs, ex, ms, lim, _totalMax] =>
     match parseInts? ',' rs, parseNats? ',' ex, parseMetas ms, parseInt? lim with
     | some rs, some ex, some ms, some lim =>
-      showSize (vertPlan rs lim (exclOf ex) (ms.length + 1) [] [] ms)
+      showSize (vertPlan true rs lim (exclOf ex) (ms.length + 1) [] [] ms)
     | _, _, _, _ => "bad-op"
   | ["cp.run", dd, ig, lag, k, acts] =>
     match parseNat? dd, parseNat? ig, parseNat? lag, parseNat? k with
